@@ -105,6 +105,20 @@ fn run_tool(tool: &str, args: &[String], stdin_data: &[u8], how: OutArg, timeout
     (class, content, se)
 }
 
+/// `CARGO_PKG_VERSION` of a workspace member, read from its manifest in the tree under check
+fn crate_version(member: &str) -> String {
+    let dir = std::env::var("VERIF_REPO_DIR").unwrap_or_else(|_| "/repo".to_string());
+    let text = std::fs::read_to_string(format!("{}/{}/Cargo.toml", dir, member)).unwrap_or_default();
+    for line in text.lines() {
+        let l = line.trim();
+        if let Some(rest) = l.strip_prefix("version") {
+            let rest = rest.trim_start();
+            if let Some(v) = rest.strip_prefix('=') { return v.trim().trim_matches('"').to_string(); }
+        }
+    }
+    String::new()
+}
+
 pub fn c15(out: &mut dyn Write, tier: &str, _rng: &mut Rng, st: &mut Stats) {
     let mut ns: Vec<usize> = (1..=12).collect();
     ns.extend_from_slice(&[16, 20, 31, 32, 40, 255, 256, 300]);
@@ -113,6 +127,8 @@ pub fn c15(out: &mut dyn Write, tier: &str, _rng: &mut Rng, st: &mut Stats) {
         let (class, stdout, _) = run_tool("n_queens_gen", &["-n".into(), n.to_string()], &[], OutArg::Positional, 300, st);
         st.hit(&format!("exit.{}", class));
         if class != "ok" { writeln!(out, "C15|queens|{}|{}|-|-", n, class).unwrap(); continue; }
+        // the bytes themselves, for the text model of the generator (recorded tie, see Thm/C15T.lean)
+        if n <= 24 { writeln!(out, "C15|text|{}|{}|{}", n, hex(crate_version("n_queens_gen").as_bytes()), hex(&stdout)).unwrap(); }
         let ast_field = match parse_text(&stdout, None) {
             Parsed::Ok(pf) => {
                 let rename = |name: &str| name.strip_prefix("v_").and_then(|k| k.parse::<usize>().ok());
@@ -190,11 +206,13 @@ pub fn c16(out: &mut dyn Write, tier: &str, rng: &mut Rng, st: &mut Stats) {
     for _ in 0..n {
         let k = 2 + rng.below(3) as usize; // 2..4 distinct names in play
         let mut names: Vec<String> = Vec::new();
-        let which = rng.below(4);
-        let pl: &[&str] = if which == 0 { &pool_join[..] } else if which == 1 { &pool_cat[..] } else { &pool[..] };
-        let k = if which < 2 { 3 + rng.below(3) as usize } else { k };
+        let which = rng.below(5);
+        // names that differ only in letter case are different vertices
+        let pool_case = ["a", "A", "b", "B", "ab", "Ab", "aB"];
+        let pl: &[&str] = if which == 0 { &pool_join[..] } else if which == 1 { &pool_cat[..] } else if which == 4 { &pool_case[..] } else { &pool[..] };
+        let k = if which < 2 || which == 4 { 3 + rng.below(3) as usize } else { k };
         while names.len() < k { let nm = rng.pick(pl).to_string(); if !names.contains(&nm) { names.push(nm); } }
-        let m = 1 + rng.below(if which < 2 { 9 } else { 6 }) as usize;
+        let m = 1 + rng.below(if which < 2 || which == 4 { 9 } else { 6 }) as usize;
         let edges: Vec<(String, String)> = (0..m).map(|_| (rng.pick(&names[..]).clone(), rng.pick(&names[..]).clone())).collect();
         cases.push((edges, rng.chance(1, 2), rng.chance(1, 2)));
     }
@@ -376,7 +394,13 @@ pub fn c18(out: &mut dyn Write, tier: &str, rng: &mut Rng, st: &mut Stats) {
             let u = rng.chance(1, 2);
             let mut args = vec!["--convert".to_string(), path.clone()];
             if u { args.push("-u".into()); }
-            let (class, stdout, _) = run_tool("random_graph_gen", &args, &[], OutArg::DashO, 60, st);
+            let (class, stdout, _) = if i % 8 == 0 {
+                // in place: the converted list replaces the file it was read from
+                let mut a = args.clone(); a.push("-o".into()); a.push(path.clone());
+                let (class, so, se) = run_capture(&bin("random_graph_gen"), &a, &[], 60);
+                st.hit("convert.in-place");
+                if class == "ok" { (class, std::fs::read(&path).unwrap_or_default(), se) } else { (class, so, se) }
+            } else { run_tool("random_graph_gen", &args, &[], OutArg::DashO, 60, st) };
             let outp = read_edges(&stdout, false).map(|es| pairs_field(&es)).unwrap_or_else(|| "UNREADABLE".to_string());
             writeln!(out, "C18|convert|{}|{}|{}|{}", u as u8, pairs_field(&edges), class, outp).unwrap();
             st.hit("convert");
